@@ -75,40 +75,35 @@ theorem bmeta_setBattery (w : PWorld α B) (b' : StatBatS α B)
     rw [e, this]
   · rfl
 
-theorem chargeVehicles_frame (ops : BatOps α B) (t0 : α) :
-    ∀ (plans : List (PVeh α B × α)) (st st' : PWorld α B × GcS α × List (String × α)),
+theorem chargeVehicles_frame (ops : BatOps α B) :
+    ∀ (plans : List (PVeh α B × α)) (surplus : α) (st st' : PWorld α B × GcS α × List (String × α)),
       ((vmeta st.1.vehicles).map Prod.fst).Nodup →
       (∀ q ∈ plans, (q.1.v.id, q.1.v.cs) ∈ vmeta st.1.vehicles) →
-      chargeVehicles ops t0 plans st = .ok st' →
+      chargeVehicles ops plans surplus st = .ok st' →
       vmeta st'.1.vehicles = vmeta st.1.vehicles ∧ st'.1.gcs = st.1.gcs ∧ st'.1.batteries = st.1.batteries := by
   intro plans
   induction plans with
   | nil =>
-    intro st st' _ _ h
+    intro surplus st st' _ _ h
     simp only [chargeVehicles, Except.ok.injEq] at h
     subst h; exact ⟨rfl, rfl, rfl⟩
   | cons q rest ih =>
-    intro st st' hnd hq h
-    obtain ⟨pv, sched⟩ := q
+    intro surplus st st' hnd hq h
+    obtain ⟨pv, planned⟩ := q
     obtain ⟨w, gc, cmds⟩ := st
-    unfold chargeVehicles at h
-    simp only at h hnd hq
-    have hpv := hq (pv, sched) (by simp)
+    simp only at hnd hq
+    have hpv := hq (pv, planned) (by simp)
     simp only at hpv
-    split at h
-    · split at h
-      · cases h
-      · obtain ⟨x, hx, hb⟩ := bind_ok h
-        obtain ⟨bat', p⟩ := x
-        have hm := vmeta_setVehicle w { pv with v := { pv.v with bat := bat' }, schedule := some (sched - pymin t0 0) }
-          hnd hpv
-        have := ih _ _ (by simp only; rw [hm]; exact hnd)
-          (fun q' hq' => by simp only; rw [hm]; exact hq q' (List.mem_cons_of_mem _ hq')) hb
-        simp only at this ⊢
-        exact ⟨this.1.trans hm, this.2.1, this.2.2⟩
-    · have hm := vmeta_setVehicle w { pv with schedule := some (sched - pymin t0 0) } hnd hpv
-      have := ih _ _ (by simp only; rw [hm]; exact hnd)
-        (fun q' hq' => by simp only; rw [hm]; exact hq q' (List.mem_cons_of_mem _ hq')) h
+    obtain ⟨csId, sched, hcs, hso, hcase⟩ := chargeVehicles_cons ops pv planned rest surplus w gc cmds st' h
+    rcases hcase with ⟨_, bat', p, _, hrec⟩ | ⟨_, hrec⟩
+    · have hm := vmeta_setVehicle w { pv with v := { pv.v with bat := bat' }, schedule := some sched } hnd hpv
+      have := ih _ _ _ (by simp only; rw [hm]; exact hnd)
+        (fun q' hq' => by simp only; rw [hm]; exact hq q' (List.mem_cons_of_mem _ hq')) hrec
+      simp only at this ⊢
+      exact ⟨this.1.trans hm, this.2.1, this.2.2⟩
+    · have hm := vmeta_setVehicle w { pv with schedule := some sched } hnd hpv
+      have := ih _ _ _ (by simp only; rw [hm]; exact hnd)
+        (fun q' hq' => by simp only; rw [hm]; exact hq q' (List.mem_cons_of_mem _ hq')) hrec
       simp only at this ⊢
       exact ⟨this.1.trans hm, this.2.1, this.2.2⟩
 
@@ -188,29 +183,23 @@ theorem foldl_setBattery_frame (done : List (StatBatS α B)) :
       (fun b' hb' => by rw [hm]; exact hd b' (List.mem_cons_of_mem _ hb'))
     exact ⟨h1.trans hm, h2⟩
 
-theorem chargeVehicles_gcid (ops : BatOps α B) (t0 : α) :
-    ∀ (plans : List (PVeh α B × α)) (st st' : PWorld α B × GcS α × List (String × α)),
-      chargeVehicles ops t0 plans st = .ok st' → st'.2.1.id = st.2.1.id := by
+theorem chargeVehicles_gcid (ops : BatOps α B) :
+    ∀ (plans : List (PVeh α B × α)) (surplus : α) (st st' : PWorld α B × GcS α × List (String × α)),
+      chargeVehicles ops plans surplus st = .ok st' → st'.2.1.id = st.2.1.id := by
   intro plans
   induction plans with
-  | nil => intro st st' h; simp only [chargeVehicles, Except.ok.injEq] at h; subst h; rfl
+  | nil => intro surplus st st' h; simp only [chargeVehicles, Except.ok.injEq] at h; subst h; rfl
   | cons q rest ih =>
-    intro st st' h
-    obtain ⟨pv, sched⟩ := q
+    intro surplus st st' h
+    obtain ⟨pv, planned⟩ := q
     obtain ⟨w, gc, cmds⟩ := st
-    unfold chargeVehicles at h
-    simp only at h
-    split at h
-    · split at h
-      · cases h
-      · rename_i csId _
-        obtain ⟨x, hx, hb⟩ := bind_ok h
-        obtain ⟨bat', p⟩ := x
-        have := ih _ _ hb
-        simp only at this ⊢
-        rw [this]
-        exact (addLoad_currentLoad gc csId p).2.2.1
-    · have := ih _ _ h
+    obtain ⟨csId, sched, hcs, hso, hcase⟩ := chargeVehicles_cons ops pv planned rest surplus w gc cmds st' h
+    rcases hcase with ⟨_, bat', p, _, hrec⟩ | ⟨_, hrec⟩
+    · have := ih _ _ _ hrec
+      simp only at this ⊢
+      rw [this]
+      exact (addLoad_currentLoad gc csId p).2.2.1
+    · have := ih _ _ _ hrec
       exact this
 
 theorem applyBatteries_gcid (ops : BatOps α B) (env : PEnv α) (info : List (String × α)) :
@@ -278,7 +267,7 @@ theorem stepGc_frame (ops : BatOps α B) (law : BatLaw ops) (env : PEnv α) (w :
   have hgs := gatherVehicles_spec ops env w g.gc.id vehicles maxStanding hg
   obtain ⟨_, hplans⟩ := planVehicles_spec ops law env w (sumLoads env g.gc.loads) _ _ _ _ _ _
     (headGe_buildTimesteps env seasons level g.gc.id _ _ (g.gc.loads, g.gc.curMax)) hp
-  obtain ⟨f1, f2, f3⟩ := chargeVehicles_frame ops ts0.power plans (w, g.gc, []) (w1, gc1, cmds1) hvn
+  obtain ⟨f1, f2, f3⟩ := chargeVehicles_frame ops plans _ (w, g.gc, []) (w1, gc1, cmds1) hvn
     (fun q hq => by
       obtain ⟨hqs, _⟩ := hplans q hq
       have := (hgs q.1 (mem_sortByKey _ _ _ hqs)).1
@@ -295,7 +284,7 @@ theorem stepGc_frame (ops : BatOps α B) (law : BatLaw ops) (env : PEnv α) (w :
   obtain ⟨k1, k2⟩ := foldl_setBattery_frame done w1 (by rw [f3]; exact hbn) hdm
   have hid : gc2.id = g.gc.id := by
     have a1 := applyBatteries_gcid ops env info1 _ _ _ h6
-    have a2 := chargeVehicles_gcid ops ts0.power plans _ _ hc
+    have a2 := chargeVehicles_gcid ops plans _ _ _ hc
     simp only at a1 a2
     rw [a1, a2]
   refine ⟨hst, ?_, ?_, ?_⟩
@@ -309,13 +298,12 @@ theorem stepGc_frame (ops : BatOps α B) (law : BatLaw ops) (env : PEnv α) (w :
     · rfl
 
 /-- premise of the limit theorem for one connector, on the meta data of vehicles and batteries: load within
-`[0, cur_max_power]`, `peak_power` within `[0, cur_max_power]`, and the batteries at the connector have ids that are
+`[0, cur_max_power]`, `peak_power ≥ 0`, and the batteries at the connector have ids that are
 neither load keys nor station ids of vehicles, and non-negative minimum powers -/
 structure GcOK (vm : List (String × Option String)) (bm : List (String × String × α)) (g : PGc α) : Prop where
   nonneg : 0 ≤ g.gc.currentLoad
   lim : g.gc.currentLoad ≤ g.gc.curMax
   peak0 : 0 ≤ g.peak
-  peak : g.peak ≤ g.gc.curMax
   bkey : ∀ t ∈ bm, (t.2.1 == g.gc.id) = true → sdGet g.gc.loads t.1 = none
   bcs : ∀ t ∈ bm, (t.2.1 == g.gc.id) = true → ∀ m ∈ vm, m.2 ≠ some t.1
   bmin : ∀ t ∈ bm, (t.2.1 == g.gc.id) = true → 0 ≤ t.2.2
@@ -392,7 +380,7 @@ theorem step_limit (ops : BatOps α B) (law : BatLaw ops) (idem : LoadIdem ops) 
               rw [← hvm]
               exact List.mem_map_of_mem (f := fun pv : PVeh α B => (pv.v.id, pv.v.cs)) hpv))
             (fun b hb' hp => gok.bmin _ (hbt b hb') hp)
-            gok.peak0 gok.peak gok.nonneg gok.lim hr
+            gok.peak0 gok.nonneg gok.lim hr
           obtain ⟨_, fv, fb, g', hg'id, _, _, hgcs⟩ := stepGc_frame ops law env st.1 g level w1 c1 hvn' hbn' hr
           refine ih _ _ hnd.2 (fun g1 hg1 => hin g1 (List.mem_cons_of_mem _ hg1)) (by simp only; rw [fv, hvm])
             (by simp only; rw [fb, hbm]) ?_ ?_ ?_ h2
